@@ -2,7 +2,8 @@
 (* Configurations of StreamHist for C03. *)
 EXTENDS StreamHist
 
-AllBases == {Fin(<<>>), Fin(<<1>>), Fin(<<1, 2>>), Fin(<<1, 2, 3>>), [pre |-> <<>>, per |-> <<1, 2>>]}
+AllBases == {Fin(<<>>), Fin(<<1>>), Fin(<<1, 2>>), Fin(<<1, 2, 3>>), [pre |-> <<>>, per |-> <<1, 2>>],
+             Fin(<<4, 4, 4>>), [pre |-> <<>>, per |-> <<4>>]}     \* constant streams: repeat(4, 3) and Stream(4)
 AllMenu  == {"take", "next", "copy", "peek", "skip", "limit", "append", "appendh", "map", "filter", "tee",
              "thub", "use", "hpeek", "hcopy", "htake"}
 
